@@ -1169,6 +1169,10 @@ int KSI_AbstractNetworkClient_new(KSI_CTX *ctx, KSI_NetworkClient **client) {
 	}
 
 	tmp->ctx = ctx;
+	tmp->aggregator = NULL;
+	tmp->extender = NULL;
+	tmp->publicationsFile = NULL;
+	tmp->impl = NULL;
 	tmp->implFree = NULL;
 	tmp->sendExtendRequest = NULL;
 	tmp->sendPublicationRequest = NULL;
